@@ -403,6 +403,58 @@ func c12Stream(r *hx.Rand, tier string, n int, w *bufio.Writer) map[string]int {
 		}
 		emit(l)
 	}
+	// ---- (b2) documents with ONE registered member in an unsupported form: error, or everything else intact
+	for i := 0; i < n/6; i++ {
+		tc := tokenClaims(r)
+		tc.Issuer, tc.Subject, tc.Expiration, tc.IssuedAt = "https://op", "u1", oidc.Time(1900000000), oidc.Time(1800000000)
+		v := &oidc.IDTokenClaims{TokenClaims: tc, Claims: map[string]any{"role": "admin"}}
+		raw, _ := json.Marshal(v)
+		var m map[string]json.RawMessage
+		json.Unmarshal(raw, &m)
+		bad := hx.Pick(r, "exp", "iat", "auth_time", "sub", "iss", "nonce")
+		var form string
+		switch bad {
+		case "exp", "iat", "auth_time":
+			form = hx.Pick(r, `"tomorrow"`, `[1]`, `{}`, `true`, `"12"`)
+		default:
+			form = hx.Pick(r, `5`, `[1]`, `{}`, `true`)
+		}
+		m[bad] = json.RawMessage(form)
+		doc, _ := json.Marshal(m)
+		docO, _ := topLevel(doc)
+		target := hx.Pick(r, "IDTokenClaims", "AccessTokenClaims")
+		l := hx.NewLine("C12").I("case", int64(caseNo)).S("kind", "claimsdoc").S("type", target).S("bad", bad).S("form", form).L("doc", docO)
+		var reg2 []byte
+		p, err := safeDecode(func() error {
+			if target == "IDTokenClaims" {
+				v2 := new(oidc.IDTokenClaims)
+				if err := json.Unmarshal(doc, v2); err != nil {
+					return err
+				}
+				v2.Claims = nil
+				reg2, _ = json.Marshal(v2)
+				return nil
+			}
+			v2 := new(oidc.AccessTokenClaims)
+			if err := json.Unmarshal(doc, v2); err != nil {
+				return err
+			}
+			v2.Claims = nil
+			reg2, _ = json.Marshal(v2)
+			return nil
+		})
+		switch {
+		case p:
+			l.S("obs", "panic")
+		case err != nil:
+			l.S("obs", "err")
+		default:
+			reg2O, _ := topLevel(reg2)
+			l.S("obs", "ok").L("o.reg2", reg2O)
+		}
+		stats["claimsdoc-"+bad]++
+		emit(l)
+	}
 	// ---- (c) tolerant decoders
 	for i := 0; i < n/3; i++ {
 		text := docPool[r.Intn(len(docPool))]
